@@ -276,6 +276,9 @@ func c14(ctx *Ctx) (*Outcome, error) {
 	for i := 0; i < 128; i++ {
 		cases = append(cases, collisionKindsCase(i))
 	}
+	for i := 0; i < 9; i++ {
+		cases = append(cases, anyOfAliasCollisionCase(i))
+	}
 	// pinned witness of the recorded finding name-breaks-tag
 	for _, hn := range hazard {
 		root := &sg.Schema{Types: []string{"object"}, Props: []sg.Prop{{Name: hn, S: &sg.Schema{Types: []string{"string"}}}, {Name: "plain", S: &sg.Schema{Types: []string{"integer"}}}}}
